@@ -13,17 +13,17 @@ theorem emits_log (s : AS) (pre : List PTok) : (emits s pre).log = logAfter s.lo
     rw [emits_cons, ih]
     cases t <;> rfl
 
-theorem render_cons (t : Tok) (ts : List Tok) : render (t :: ts) = t.text ++ render ts := by
-  simp [render]
+theorem render_cons (t : Tok) (ts : List Tok) : renderToks (t :: ts) = t.text ++ renderToks ts := by
+  simp [renderToks]
 
-theorem render_append (a b : List Tok) : render (a ++ b) = render a ++ render b := by
-  simp [render]
+theorem render_append (a b : List Tok) : renderToks (a ++ b) = renderToks a ++ renderToks b := by
+  simp [renderToks]
 
 theorem emits_out (s : AS) (pre : List PTok) :
     ((emits s pre).outRev.reverse).flatten =
-      (s.outRev.reverse).flatten ++ render (labelToks s.log pre) := by
+      (s.outRev.reverse).flatten ++ renderToks (labelToks s.log pre) := by
   induction pre generalizing s with
-  | nil => simp [render, labelToks]
+  | nil => simp [renderToks, labelToks]
   | cons t rest ih =>
     rw [emits_cons, ih]
     cases t with
@@ -67,7 +67,7 @@ theorem frags_ok {g : Mol} (hg : WGraph g)
     ∀ (roots : List Nat), (∀ r ∈ roots, r ∈ g.roots) →
       ∀ (ai : Nat) (log : RingLog) (acc : List Str) (maps : List AttributionMap),
       ∃ maps', molToSmiles.frags g roots ai log acc maps =
-        .ok (acc ++ (specFragsFrom g log roots).map render, maps') := by
+        .ok (acc ++ (specFragsFrom g log roots).map renderToks, maps') := by
   intro roots
   induction roots with
   | nil =>
@@ -81,7 +81,7 @@ theorem frags_ok {g : Mol} (hg : WGraph g)
     have hlog : w'.ringLog = logAfter log (specPre g r) := by
       have := congrArg AS.log e2
       rw [emits_log] at this; exact this
-    have hout : (w'.outRev.reverse).flatten = render (labelToks log (specPre g r)) := by
+    have hout : (w'.outRev.reverse).flatten = renderToks (labelToks log (specPre g r)) := by
       have := emits_out ({ ringLog := log } : WState).abs (specPre g r)
       rw [← e2] at this
       simpa [WState.abs] using this
